@@ -176,10 +176,8 @@ class _SStr(str):
 
     def count(self, sub, *args):
         if self.spec == "b" and sub == "1" and not args:
-            v = self.value
-            if v.lo < 0:
-                raise Unsupported("popcount of a possibly negative value")
-            return popcount(v)
+            # format(x, 'b') of a negative integer is '-' followed by the digits of |x|
+            return popcount(abs(self.value))
         raise Unsupported("str.count on formatted symbolic value")
 
 
@@ -302,7 +300,12 @@ class SInt:
         return self
 
     def __abs__(self):
-        return ite(self < 0, -self, self)
+        if self.lo >= 0:
+            return self
+        r = ite(self < 0, -self, self)
+        lo = 0 if self.hi >= 0 else -self.hi
+        hi = max(abs(self.lo), abs(self.hi))
+        return SInt(_fit(r.t, r.t.size(), lo, hi), lo, hi)
 
     def __invert__(self):
         lo, hi = ~self.hi, ~self.lo
